@@ -514,3 +514,72 @@ package kcp
 //@   loop 5 invariant forall j int :: rangeindex < j && j < len(shards) ==> shardok(shards[j], maxlen)
 //@   loop 5 invariant dec.wfSets() && (newBuffers == nil || fresh(newBuffers))
 //@   loop 6 invariant recovered == nil || fresh(recovered)
+//
+// E-INV: the FEC encoder. Rows of the shard cache keep their original 1500-byte arrays; the
+// first shardCount rows hold the size-prefixed payloads of the open group, none longer than
+// maxSize; sequence ids stay below the wrap value.
+//@ pred (enc *fecEncoder) wfP() = 0 < enc.dataShards && 0 < enc.parityShards && enc.shardSize == enc.dataShards + enc.parityShards
+//@      && enc.shardSize <= 256 && 0 < enc.paws && enc.next < enc.paws && enc.codec != nil
+//@      && 0 <= enc.headerOffset && enc.payloadOffset == enc.headerOffset + 6 && enc.payloadOffset + 2 <= 1500
+//@      && len(enc.shardCache) == enc.shardSize && len(enc.encodeCache) == enc.shardSize
+//@      && ref(enc.shardCache) != ref(enc.encodeCache)
+//@ pred (enc *fecEncoder) wfRows() = 0 <= enc.shardCount && enc.shardCount < enc.dataShards && 0 <= enc.maxSize && enc.maxSize <= 1500
+//@      && (enc.shardCount > 0 ==> enc.payloadOffset + 2 <= enc.maxSize)
+//@      && (forall k int :: 0 <= k && k < len(enc.shardCache) ==> cap(enc.shardCache[k]) == 1500)
+//@      && (forall k int :: 0 <= k && k < enc.shardCount ==> enc.payloadOffset + 2 <= len(enc.shardCache[k]) && len(enc.shardCache[k]) <= enc.maxSize)
+//@      && enc.parityRows()
+//@ pred (enc *fecEncoder) parityRows() = forall k int :: enc.dataShards <= k && k < len(enc.shardCache) ==> enc.payloadOffset + 2 <= len(enc.shardCache[k])
+//@ pred (enc *fecEncoder) wf() = enc.wfP() && enc.wfRows()
+//
+//@ func newFECEncoder
+//@   requires dataShards + parityShards <= 256 && 0 <= offset && offset + 8 <= 1500
+//@   ensures result != nil ==> fresh(result) && result.wf() && result.headerOffset == offset && result.shardCount == 0 && result.next == 0
+//@   ensures result != nil ==> result.dataShards == dataShards && result.parityShards == parityShards
+//@   loop 1 invariant 0 - 1 <= rangeindex && forall j int :: 0 <= j && j <= rangeindex ==> cap(enc.shardCache[j]) == 1500 && len(enc.shardCache[j]) == 1500
+//
+//@ func fecEncoder.sealData
+//@   requires enc.wfP() && len(data) >= 6
+//@   modifies enc.next, data[..]
+//@   ensures @C09 le32(data, 0) == old(enc.next) && le16(data, 4) == 241
+//@   ensures @C09 enc.next == (old(enc.next) + 1) % enc.paws && enc.next < enc.paws
+//@   ensures forall j int :: j < 0 || j >= 6 ==> data[j] == old(data[j])
+//@ func fecEncoder.sealParity
+//@   requires enc.wfP() && len(data) >= 6
+//@   modifies enc.next, data[..]
+//@   ensures @C09 le32(data, 0) == old(enc.next) && le16(data, 4) == 242
+//@   ensures @C09 enc.next == (old(enc.next) + 1) % enc.paws && enc.next < enc.paws
+//@   ensures forall j int :: j < 0 || j >= 6 ==> data[j] == old(data[j])
+//@ func fecEncoder.sealOOB
+//@   requires len(data) >= 6
+//@   modifies data[..]
+//@   ensures @C09 le32(data, 0) == 4294967295 && le16(data, 4) == 243
+//@   ensures forall j int :: j < 0 || j >= 6 ==> data[j] == old(data[j])
+//@ func fecEncoder.skipParity
+//@   requires enc.wfP()
+//@   modifies enc.next
+//@   ensures @C09 enc.next == uint32(old(enc.next) + enc.parityShards) % enc.paws && enc.next < enc.paws
+//@ func fecEncoder.encodeOOB
+//@   requires enc.wfP() && enc.payloadOffset + 2 <= len(b)
+//@   modifies b[..]
+//@   ensures @C19 le32(b, enc.headerOffset) == 4294967295 && le16(b, enc.headerOffset + 4) == 243
+//@   ensures @C19 le16(b, enc.payloadOffset) == uint16(len(b) - enc.payloadOffset)
+//@   ensures @C19 forall j int :: j < enc.headerOffset || j >= enc.payloadOffset + 2 ==> b[j] == old(b[j])
+//
+//@ func fecEncoder.encode
+//@   requires enc.wf() && enc.payloadOffset + 2 <= len(b) && len(b) <= 1500
+//@   modifies all(enc), b[..], enc.shardCache[..], enc.encodeCache[..], allbytes, DefaultSnmp.FECErrs
+//@   ensures enc.wf() && len(ps) <= enc.parityShards
+//@   ensures @C10 forall k int :: 0 <= k && k < len(ps) ==> enc.payloadOffset + 2 <= len(ps[k]) && len(ps[k]) <= 1500 && cap(ps[k]) == 1500
+//@   ensures @C10 [parity-not-longer-than-longest-data] forall k int :: 0 <= k && k < len(ps) ==> len(ps[k]) <= max(old(enc.maxSize), len(b))
+//@   loop 1 invariant 0 <= i && enc.wfP() && enc.shardCount == enc.dataShards && 0 <= enc.maxSize && enc.maxSize <= 1500 && enc.payloadOffset + 2 <= enc.maxSize
+//@   loop 1 invariant enc.maxSize == max(old(enc.maxSize), len(b)) && enc.parityRows()
+//@   loop 1 invariant (forall k int :: 0 <= k && k < len(enc.shardCache) ==> cap(enc.shardCache[k]) == 1500)
+//@   loop 1 invariant (forall k int :: 0 <= k && k < enc.dataShards ==> enc.payloadOffset + 2 <= len(enc.shardCache[k]) && len(enc.shardCache[k]) <= enc.maxSize)
+//@   loop 2 invariant enc.wfP() && enc.shardCount == enc.dataShards && enc.maxSize <= 1500 && enc.payloadOffset + 2 <= enc.maxSize
+//@   loop 2 invariant enc.maxSize == max(old(enc.maxSize), len(b)) && enc.parityRows()
+//@   loop 2 invariant (forall k int :: 0 <= k && k < len(enc.shardCache) ==> cap(enc.shardCache[k]) == 1500)
+//@   loop 3 invariant enc.wfP() && enc.shardCount == enc.dataShards && enc.maxSize <= 1500 && enc.payloadOffset + 2 <= enc.maxSize
+//@   loop 3 invariant enc.maxSize == max(old(enc.maxSize), len(b)) && enc.parityRows()
+//@   loop 3 invariant (forall k int :: 0 <= k && k < len(enc.shardCache) ==> cap(enc.shardCache[k]) == 1500)
+//@   loop 3 invariant ref(ps) == ref(enc.shardCache) && off(ps) == off(enc.shardCache) + enc.dataShards && len(ps) == enc.parityShards
+//@   loop 3 invariant forall j int :: 0 <= j && j <= rangeindex ==> len(ps[j]) == enc.maxSize
